@@ -103,8 +103,10 @@ def h_atom_site(eng, group, marker, charge_marker, has_alt, name_len, comp_len, 
     rows, wants = [], []
     maxw = 0
     idw = seqw = 0
+    # group: one record type for all rows, or one per row ("ATOM,HETATM,ATOM": a hetero group between polymer rows)
+    groups = group.split(",") if "," in group else [group] * len(models)
     for i, m in enumerate(models):
-        v, want, widths, iw, sw = _row(eng, i, group, marker, charge_marker, has_alt, name_len, comp_len, asym_len, same_chain, has_ins, focus if i == 0 else [], m)
+        v, want, widths, iw, sw = _row(eng, i, groups[i], marker, charge_marker, has_alt, name_len, comp_len, asym_len, same_chain, has_ins, focus if i == 0 else [], m)
         rows.append(v)
         wants.append(want)
         maxw = max(maxw, *widths.values())
@@ -131,7 +133,7 @@ def h_atom_site(eng, group, marker, charge_marker, has_alt, name_len, comp_len, 
                 want_kinds.append("MODEL")
                 for i, mm in enumerate(models):
                     if mm == m:
-                        want_kinds.append(group)
+                        want_kinds.append(groups[i])
                         order.append(i)
                 want_kinds.append("ENDMDL")
             eng.check(kinds == want_kinds, "model-blocks", note=f"record sequence {kinds}, expected {want_kinds}")
@@ -168,6 +170,11 @@ def obligations(tier):
                     cases.append(_case(group=group, focus=focus, name_len=name_len, comp_len=comp_len))
         cases.append(_case(group=group, models=["1", "2"], focus=["x", "y"]))
         cases.append(_case(group=group, models=["1", "1", "2"], focus=["seq"]))
+        if group == "ATOM":
+            # record order is row order also when a HETATM row sits between ATOM rows (modified residue, cap, ligand inside a chain)
+            cases.append(_case(group="ATOM,HETATM,ATOM", models=["1", "1", "1"], focus=["seq"]))
+            cases.append(_case(group="HETATM,ATOM,HETATM", models=["1", "1", "1"], focus=["id"]))
+            cases.append(_case(group="ATOM,HETATM,ATOM,ATOM", models=["1", "1", "1", "2"], focus=["seq"]))
         cases.append(_case(group=group, models=["9", "10"], focus=["id"]))
         cases.append(_case(group=group, models=["2", "1", "2"], focus=["z"]))
     # the other dimensions of the property (known to fail on the pinned tree: see known_findings.json)
